@@ -120,6 +120,19 @@ func (w *kvWorld) apply(a kvAct) string {
 	switch a.Name {
 	case "CachePut", "ContractPut":
 		w.cache.Put(w.keys[a.K-1], []byte(a.V))
+	case "PutRefused":
+		// Storage.Put's checkStorageContext / APPCALL: only a live contract (GetContract != nil) writes
+		got, _, err := w.cache.GetContract(kvContract(a.C).Address())
+		if err != nil {
+			return "err:" + err.Error()
+		}
+		if got == nil {
+			return "refused"
+		}
+		w.cache.Put(w.keys[a.K-1], []byte(a.V))
+	case "MarkDestroyed":
+		// native global-param addDestroyedContract: marker only, record and storage stay
+		w.cache.SetContractDestroyed(kvContract(a.C).Address(), w.in.Height)
 	case "CacheDelete":
 		w.cache.Delete(w.keys[a.K-1])
 	case "CacheCommit":
